@@ -519,7 +519,8 @@ class Tifa(TifaCore, ast.NodeVisitor):
         comparators = [self.visit(compare) for compare in node.comparators]
 
         # Handle ops
-        for op, right in zip(node.ops, comparators):
+        # In a chain (a < b < c) every operator compares two neighbours
+        for op, left, right in zip(node.ops, [left] + comparators, comparators):
             if isinstance(op, (ast.Eq, ast.NotEq, ast.Is, ast.IsNot)):
                 continue
             elif isinstance(op, (ast.Lt, ast.LtE, ast.GtE, ast.Gt)):
